@@ -25,11 +25,11 @@ func (q queryServer) CalculationCreatePosition(ctx context.Context, req *types.Q
 	}
 
 	lowerTick, ok := sdkmath.NewIntFromString(req.LowerTick)
-	if !ok {
+	if !ok || !lowerTick.IsInt64() {
 		return nil, types.ErrInvalidTickers
 	}
 	upperTick, ok := sdkmath.NewIntFromString(req.UpperTick)
-	if !ok {
+	if !ok || !upperTick.IsInt64() {
 		return nil, types.ErrInvalidTickers
 	}
 	err = types.CheckTicks(lowerTick.Int64(), upperTick.Int64())
@@ -39,6 +39,9 @@ func (q queryServer) CalculationCreatePosition(ctx context.Context, req *types.Q
 	amount, ok := sdkmath.NewIntFromString(req.Amount)
 	if !ok {
 		return nil, types.ErrInvalidTokenAmounts
+	}
+	if amount.IsNegative() {
+		return nil, types.ErrNegativeTokenAmount
 	}
 
 	sqrtPriceLowerTick, sqrtPriceUpperTick, err := types.TicksToSqrtPrice(lowerTick.Int64(), upperTick.Int64(), pool.TickParams)
